@@ -38,6 +38,18 @@ Theorem c04_flag_independent : forall f f', f_fc f = f_fc f' -> f_header f = f_h
 Proof. exact flag_independent. Qed.
 Print Assumptions c04_flag_independent.
 
+(* ---- the parsers see EVERY element of the tagged parameters, also those behind an element with an empty body
+   (finding F44: iteration used to stop at the first empty non-leading element).  The elements of an encoded list
+   t1 .. tn, with the offsets of their headers: *)
+Fixpoint elems_at (l : list tag) (off : Z) : list elem :=
+  match l with
+  | [] => []
+  | t :: r => {| e_off := off; e_num := fst t; e_len := zlen (snd t) |} :: elems_at r (off + 2 + zlen (snd t))
+  end.
+Theorem c04_elements_after_empty : forall t l, spec_iterate (enc (t :: l)) = Ok (elems_at (t :: l) 0).
+Proof. exact iterate_enc. Qed.
+Print Assumptions c04_elements_after_empty.
+
 (* ---- generated frames round-trip.  Appended tags may be anything that does not itself carry an SSID,
    a channel or security information (numbers 0, 3, 61, 48, 221) *)
 Definition neutral (extras : list tag) : Prop :=
@@ -59,7 +71,7 @@ Theorem c04_roundtrip_probe_resp : forall a1 a2 a3 ssid ch now extras,
   mac_ok a1 -> mac_ok a2 -> mac_ok a3 -> ssid_ok ssid -> zlen ssid <= 32 -> u8 ch -> 0 <= now < 2 ^ 64 ->
   wf_tags extras -> neutral extras ->
   exists f, spec_classify (s_probe_resp a1 a2 a3 ssid ch now extras) None = Ok f /\
-    s_parse_probe_resp f = Ok {| b_transmitter := zero6; b_receiver := zero6; b_bssid := a3; b_ssid := ssid_field ssid;
+    s_parse_probe_resp f = Ok {| b_transmitter := a2; b_receiver := a1; b_bssid := a3; b_ssid := ssid_field ssid;
                                  b_hidden := hidden_of ssid; b_channel := ch; b_wps := 0; b_enc := 0; b_wpa := wpa0;
                                  b_rsn := rsn0; b_tags := enc ([(0, ssid); (3, [ch])] ++ extras) |}.
 Proof. exact roundtrip_probe_resp. Qed.
@@ -87,7 +99,7 @@ Definition randomized_of (a2 : list byte) : Z := if Z.testbit (znth a2 0) 1 then
 Theorem c04_roundtrip_sta : forall a1 a2 a3 ap ssid ch extras,
   mac_ok a1 -> mac_ok a2 -> mac_ok a3 -> mac_ok ap -> ssid_ok ssid -> zlen ssid <= 32 -> u8 ch ->
   wf_tags extras -> neutral extras ->
-  let expect := {| s_channel := ch; s_randomized := randomized_of a2; s_transmitter := a2; s_receiver := zero6;
+  let expect := {| s_channel := ch; s_randomized := randomized_of a2; s_transmitter := a2; s_receiver := a1;
                    s_bssid := a3; s_ssid := ssid_field ssid; s_broadcast_ssid := 0;
                    s_tags := enc ([(0, ssid); (3, [ch])] ++ extras) |} in
   (exists f, spec_classify (s_probe_req a1 a2 a3 ssid ch extras) None = Ok f /\ s_parse_probe_req f = Ok expect) /\
